@@ -10,6 +10,8 @@ pub mod memoracle;
 pub mod memchecks;
 pub mod evmodel;
 pub mod evcheck;
+pub mod fetchsim;
+pub mod fetchcheck;
 
 use common::{Failure, ReplayFile, Tier, case_from};
 
@@ -17,6 +19,8 @@ use common::{Failure, ReplayFile, Tier, case_from};
 pub fn dispatch(prop: &str, tier: Tier, seed: u64) -> i32 {
     match prop {
         "C05" => memchecks::check_c05(tier, seed),
+        "C06" => fetchcheck::check_c06(tier, seed),
+        "C11" => fetchcheck::check_c11(tier, seed),
         "C13" => memchecks::check_c13(tier, seed),
         "C14" => evcheck::check_c14(tier, seed),
         "C18" => memchecks::check_c18(tier, seed),
@@ -31,6 +35,8 @@ pub fn dispatch(prop: &str, tier: Tier, seed: u64) -> i32 {
 pub fn replay(rf: &ReplayFile) -> anyhow::Result<Option<Failure>> {
     let r = match (rf.property.as_str(), rf.sub.as_str()) {
         ("C05", "capdist") => memchecks::exec_capdist(&case_from(rf)?).failure,
+        ("C06", _) => fetchcheck::exec_fetch(fetchcheck::Which::C06, &case_from(rf)?).failure,
+        ("C11", _) => fetchcheck::exec_fetch(fetchcheck::Which::C11, &case_from(rf)?).failure,
         ("C14", _) => evcheck::exec_c14(&case_from(rf)?).failure,
         ("C05" | "C13" | "C18", _) => memchecks::replay_mem(&rf.property, case_from(rf)?),
         (p, s) => anyhow::bail!("no replay handler for {p}/{s}"),
